@@ -110,6 +110,10 @@ def gen_item(rng, idx, quick, ragged=False, force=None):
                 fee=rng.choice([0.0, 1 / 1024, 0.0006]), lev=rng.choice([1, 2, 5]),
                 levmode=rng.choice(['cross', 'cross', 'cross', 'isolated']), chunk=chunk, ragged=bool(ragged),
                 candle_policy=bool(reads),
+                # mark-price values read inside the execution hooks feed the take-profit (a quarter of the pairs)
+                mark_policy=(idx % 4 == 1 or idx % 8 == 6),
+                # the session's first candle is not on a trading-timeframe boundary counted from the epoch (00:07, 00:11 ...)
+                ts_off=(rng.choice([7, 11, 13, 23]) if idx % 3 == 2 else 0),
                 walk=dict(step=step, wick=wick, gap_p=rng.choice([0.0, 0.1, 0.3]), start=200 + 8 * span + rng.choice([0, 37])))
 
 
@@ -225,7 +229,8 @@ def whole_to_trace(tid, sc, rn, rf):
                       "trades": [[t['type'], str(t['qty']), str(t['entry']), str(t['exit']), str(t['pnl']), str(t['fee']),
                                   str(t['opened']), str(t['closed']), "0", "0"] for t in r['trades']],
                       "bal": [["USDT", str(r['wal'])]], "liq": 0, "exc": ("none" if r['exc'] == 'run' else r['exc']),
-                      "hooks": [], "reads": []}
+                      "hooks": [], "reads": [],
+                      "steps": []}   # the whole-run driver records no before() calls; X01 compares its projections
     tr = {"id": tid, "hdr": {"tf": sc['tf'], "chunk": sc['chunk'], "n": sum(len(e['raw']) for e in sc['hist']), "typ": "futures"},
           "norm": conv(rn), "fast": conv(rf)}
     it = dict(typ='futures', ttf='%dm' % sc['tf'], dtfs=[], n=0, chunk=sc['chunk'], warm=0, seed=tid, whole=sc)
